@@ -9,4 +9,12 @@ MCPerm == [s \in {1, 2, 3} |->
 MCNReps == -1..5
 MCNRepsQuick == {0, 2, 3, 5}
 MCNRepsPos == 1..3
+MCNRepsShare == {0, 2}
+MCIdOrder3 == <<"n1", "n2", "n3">>
+\* sharing configs: node 1 finishes its pool before node 2 starts (the two nodes touch disjoint
+\* variables, every interleaving reaches the same states; this only removes the commuting orders)
+Pool1First == (pool2' # pool2 \/ hist2' # hist2) => Len(pool1) = Cardinality(Node)
+\* quick bound only: node 2's sharing / re-adding starts when its pool is complete (the thorough
+\* config interleaves it with the building of the pool)
+HistoryAfterBuild == Pool1First /\ ((other' # other \/ readds' # readds) => Len(pool2) = Cardinality(Node))
 =============================================================================
